@@ -369,18 +369,18 @@ func runSoakInBubble(t *testing.T, in *SoakInput) (obs SoakObs) {
 	relay := standardblockrelay.NewForVerifC09(level, mockaccountmanager.NewAccountsProvider(), soakExecConfig{}, soakBidStrategy{},
 		map[phase0.BLSPubKey]*blockrelay.BuilderConfig{})
 	ctrl := standardcontroller.NewForVerif(&standardcontroller.VerifDeps{
-		LogLevel:                   level,
-		Monitor:                    mon,
-		ChainTime:                  ct,
-		Scheduler:                  sched,
-		AttesterDutiesProvider:     e,
-		ValidatingAccountsProvider: e,
-		Attester:                   att,
-		SyncCommitteeMessenger:     messenger,
-		SyncCommitteeAggregator:    aggregator,
-		BeaconCommitteeSubscriber:  e,
-		SlotDuration:               ct.SlotDuration,
-		SlotsPerEpoch:              in.SPE,
+		LogLevel:                     level,
+		Monitor:                      mon,
+		ChainTime:                    ct,
+		Scheduler:                    sched,
+		AttesterDutiesProvider:       e,
+		ValidatingAccountsProvider:   e,
+		Attester:                     att,
+		SyncCommitteeMessenger:       messenger,
+		SyncCommitteeAggregator:      aggregator,
+		BeaconCommitteeSubscriber:    e,
+		SlotDuration:                 ct.SlotDuration,
+		SlotsPerEpoch:                in.SPE,
 		EpochsPerSyncCommitteePeriod: 256,
 	})
 
